@@ -273,9 +273,10 @@ macro_rules! set_kernels {
             name: "sig_encode::<CTEST>(c~, z, h)".into(),
             set: $id,
             n_i32: 256 * ($L + $K),
-            lo: -g1 + 1,
-            hi: g1,
-            specials: vec![0, 1, -1, g1, -g1 + 1, bound_z, -bound_z],
+            // in test mode the norm rejection is neutralised, so z = y + c*s1 reaches +-(gamma1 + beta)
+            lo: -(g1 + $beta),
+            hi: g1 + $beta,
+            specials: vec![0, 1, -1, g1, -g1 + 1, -g1, -g1 - 1, g1 + 1, bound_z, -bound_z, g1 + $beta, -(g1 + $beta)],
             n_u8: $LD4,
             prep: noprep(),
             run: Box::new(|| {
@@ -368,8 +369,9 @@ fn kernels() -> Vec<Kernel> {
             let _ = black_box(out);
         })));
     }
-    for (nm, a, b) in [("bit_pack(eta=2)", 2, 2), ("bit_pack(eta=4)", 4, 4), ("bit_pack(t0)", 4095, 4096), ("bit_pack(gamma1=2^17)", (1 << 17) - 1, 1 << 17), ("bit_pack(gamma1=2^19)", (1 << 19) - 1, 1 << 19)] {
-        v.push(coeff_kernel(nm, 0, 1, -a, b, vec![0, -a, b, 1, -1], Box::new(move || {
+    for (nm, a, b, slack) in [("bit_pack(eta=2)", 2, 2, 0), ("bit_pack(eta=4)", 4, 4, 0), ("bit_pack(t0)", 4095, 4096, 0), ("bit_pack(gamma1=2^17, test-mode z)", (1 << 17) - 1, 1 << 17, 78), ("bit_pack(gamma1=2^19, test-mode z)", (1 << 19) - 1, 1 << 19, 196)] {
+        // `slack`: in test mode z is packed without the norm rejection, so it can leave [-a, b] by up to beta
+        v.push(coeff_kernel(nm, 0, 1, -a - slack, b + slack, vec![0, -a, b, 1, -1, -a - 1, b + 1, -a - slack, b + slack], Box::new(move || {
             let mut out = [0u8; 32 * 20];
             let bits = hk::bit_length(a + b);
             hk::bit_pack(&poly(0), a, b, &mut out[..32 * bits]);
